@@ -52,5 +52,83 @@ class from_pixel_grid_bw:
         "C10.frombw.down": "forall(lambda i, j: result[0][0, i, j] == pixel_grid[2 * i + 2, 2 * j + 1], (0, H // 2), (0, W // 2))",
         "C10.frombw.right": "forall(lambda i, j: result[0][1, i, j] == pixel_grid[2 * i + 1, 2 * j + 2], (0, H // 2), (0, W // 2))",
     }
-    result = lambda env: T.TupleT(T.GridT("bool", [2, env["H"] // 2, env["W"] // 2]), T.TupleT(T.Int, T.Int))
+    result = lambda env: T.TupleT(T.GridT("bool", [2, T.idiv(env["H"], 2), T.idiv(env["W"], 2)]), T.TupleT(T.Int, T.Int))
+    props = ["C10"]
+
+
+# ----------------------------------------------------------------------------- as_pixels (colour image)
+_BW = f"({_CELL} or {_DOWN.format(lim_d='True')} or {_RIGHT.format(lim_r='True')})"
+_BASE = f"(PixelColors.OPEN if {_BW} else PixelColors.WALL)"
+_SOL = "self.solution"
+_ON_CELL = "exists(lambda t: p == 2 * {s}[t][0] + 1 and q == 2 * {s}[t][1] + 1, (0, {hi}))"
+_BETWEEN = "exists(lambda t: p == {s}[t][0] + {s}[t + 1][0] + 1 and q == {s}[t][1] + {s}[t + 1][1] + 1, (0, {hi}))"
+
+
+def _colour(cells_hi, between_hi, endpoints=True):
+    on_path = f"({_ON_CELL.format(s=_SOL, hi=cells_hi)} or {_BETWEEN.format(s=_SOL, hi=between_hi)})"
+    inner = f"(PixelColors.PATH if (has_field(self, 'solution') and show_solution and {on_path}) else {_BASE})"
+    if not endpoints:
+        return inner
+    start = "(has_field(self, 'start_pos') and show_endpoints and p == 2 * self.start_pos[0] + 1 and q == 2 * self.start_pos[1] + 1)"
+    end = "(has_field(self, 'end_pos') and show_endpoints and p == 2 * self.end_pos[0] + 1 and q == 2 * self.end_pos[1] + 1)"
+    return f"(PixelColors.END if {end} else (PixelColors.START if {start} else {inner}))"
+
+
+def _img(colour, name="result"):
+    return f"forall(lambda p, q: rgb_is({name}, p, q, {colour}), (0, 2 * R + 1), (0, 2 * C + 1))"
+
+
+_N = "self.solution.shape[0]"
+RGB = T.GridT("int", [None, None, 3], dtype="uint8")
+CONN = T.GridT("bool", [2, None, None])
+
+
+@contract(F, "LatticeMaze.as_pixels")
+class as_pixels:
+    params = dict(
+        self=T.OneOf(
+            T.RecT("LatticeMaze", connection_list=CONN),
+            T.RecT("TargetedLatticeMaze", connection_list=CONN, start_pos=T.Coord, end_pos=T.Coord),
+            T.RecT("SolvedMaze", connection_list=CONN, start_pos=T.Coord, end_pos=T.Coord, solution=T.GridT("int", [None, 2], min_dim=1)),
+        ),
+        show_endpoints=T.Bool,
+        show_solution=T.Bool,
+    )
+    lets = dict(R="self.connection_list.shape[1]", C="self.connection_list.shape[2]")
+    requires = [
+        "not has_field(self, 'start_pos') or (in_grid(self, self.start_pos) and in_grid(self, self.end_pos))",
+        # a solved maze: the solution is a lattice walk in the grid from start to end (SolvedMaze.__init__ derives start/end from it)
+        f"not has_field(self, 'solution') or (forall(lambda t: in_grid(self, {_SOL}[t]), (0, {_N}))"
+        f" and forall(lambda t: lat_adj({_SOL}[t], {_SOL}[t + 1]), (0, {_N} - 1))"
+        f" and self.start_pos[0] == {_SOL}[0][0] and self.start_pos[1] == {_SOL}[0][1]"
+        f" and self.end_pos[0] == {_SOL}[{_N} - 1][0] and self.end_pos[1] == {_SOL}[{_N} - 1][1])",
+    ]
+    ensures = {
+        "C10.pixels.shape": "result.shape == (2 * R + 1, 2 * C + 1, 3)",
+        # start and end on their cells whenever endpoints are requested and the maze has them; the solution on exactly its
+        # cells and in-between pixels whenever requested; everything else the black/white picture in OPEN / WALL
+        "C10.pixels.picture": _img(_colour(_N, f"{_N} - 1")),
+    }
+    raises = {"ValueError": "show_solution and not show_endpoints"}
+    loops = {
+        0: Loop(head="for coord in self.solution", havoc=dict(pixel_grid=RGB),
+                inv={"shape": "pixel_grid.shape == (2 * R + 1, 2 * C + 1, 3)", "cells-so-far": _img(_colour("_k", "0", endpoints=False), "pixel_grid")}),
+        1: Loop(head="for index, coord in enumerate(self.solution[:-1])", havoc=dict(pixel_grid=RGB),
+                inv={"shape": "pixel_grid.shape == (2 * R + 1, 2 * C + 1, 3)", "between-so-far": _img(_colour(_N, "_k", endpoints=False), "pixel_grid")}),
+    }
+    result = lambda env: T.GridT("int", [2 * env["R"] + 1, 2 * env["C"] + 1, 3])
+    props = ["C10", "C17"]
+
+
+from pyvc.contracts import REGISTRY  # noqa: E402
+
+REGISTRY.class_files.update({"LatticeMaze": F, "TargetedLatticeMaze": F, "SolvedMaze": F})
+
+
+@contract("/verif/contracts/lemmas_src.py", "bw_roundtrip")
+class bw_roundtrip:
+    """Lemma C10.bw: from_bw(as_bw(m)) is m's connection structure, for every maze with at least one cell (no well-formedness needed)"""
+    params = dict(m=T.Maze())
+    requires = ["m.connection_list.shape[1] >= 1", "m.connection_list.shape[2] >= 1"]
+    ensures = {"C10.bw-inverse": "same_grid(result, m.connection_list)"}
     props = ["C10"]
